@@ -155,3 +155,52 @@ Definition demo_doc_check : option (bool * bool * bool * bool) :=
   end.
 Example C02_document_premises_are_met : demo_doc_check = Some (true, true, true, true).
 Proof. vm_compute. reflexivity. Qed.
+
+(* ---------- IF_DATA that a definition describes: written as it was read ---------- *)
+From A2L Require Proofs.IfdataFollowProofs Proofs.IfdataTraceProofs.
+Module IF := A2L.Proofs.IfdataFollowProofs.
+Module IT := A2L.Proofs.IfdataTraceProofs.
+
+(* A successful run of the typed IF_DATA parser (ifdata.rs parse_ifdata_item: scalars, strings, enums, arrays, structs, sequences,
+   tagged structs and tagged unions, keyword and block items, any nesting) that reports nothing has consumed exactly the tokens
+   that GenericIfData::write prints for the value it returns ([IF.ftoks]: the tagged items in the order of the group writer), one by one
+   in the same order: tags, /begin and /end verbatim, strings with the same content, numbers as the canonical text of the value
+   they were read as ([reads_as], the relation of the theorem for the generic elements above).  Nothing is lost, nothing is
+   invented, nothing changes its place - the items of a tagged struct are regrouped by tag in the model and still come out in
+   reading order, because the ids they are given increase in that order. *)
+Theorem C02_typed_if_data_is_written_as_it_was_read : forall ftab f ty c, c_fileid c = O -> (ty_depth ty <= f)%nat ->
+  forall s g s', Inv s -> ps_ftab s = ftab -> parse_ifdata_item f ty c s = (ROk g, s') -> ps_log s' = ps_log s ->
+  exists ts, adv ts s s' /\ Forall2 (reads_as ftab) ts (IF.ftoks ftab g).
+Proof. intros ftab f ty c Hc Hd. exact (IT.typed_ifdata_is_written_as_it_was_read ftab f ty c Hc Hd). Qed.
+Print Assumptions C02_typed_if_data_is_written_as_it_was_read.
+
+(* whatever the outcome, the typed parser leaves the cursor at or behind the place where it started: every construct that gives
+   up (a sequence item that does not match, a tag of another struct, a definition that does not fit) puts it back *)
+Theorem C02_typed_if_data_parser_moves_forward_only : forall f ty c, c_fileid c = O -> (ty_depth ty <= f)%nat ->
+  forall s r s', Inv s -> parse_ifdata_item f ty c s = (r, s') -> exists ts, adv ts s s'.
+Proof. intros f ty c Hc Hd. exact (IT.moves_parse_ifdata_item f ty c Hc Hd). Qed.
+Print Assumptions C02_typed_if_data_parser_moves_forward_only.
+
+(* the premises are met: a clean successful run on the tokens of a block with a keyword item, two blocks of one tag and sequences *)
+Definition demo_if_spec : a2mlty :=
+  TStruct [TUInt; TTaggedStruct [Tagged (bytes_of "A") false false TULong;
+                                 Tagged (bytes_of "BLK") true true (TStruct [TUChar; TSequence TUInt])]].
+Definition demo_if_text : bytes := bytes_of "5 /begin BLK 9 1 0x2 /end BLK A 7 /begin BLK 8 /end BLK /end IF_DATA".
+Example C02_typed_if_data_clean_run :
+  match tokenize_core 0 demo_if_text with
+  | TOk toks =>
+      let s := init_state toks false 1 [] in
+      match parse_ifdata_item 5 demo_if_spec (mkCtx (bytes_of "IF_DATA") O 1) s with
+      | (ROk g, s') => Some (match ps_log s' with [] => true | _ => false end, length (ps_after s'),
+                             map shape_of (firstn (length toks - 2) toks), IF.ftoks [] g)
+      | _ => None
+      end
+  | _ => None
+  end = Some (true, 2%nat,
+              [(TNumber, bytes_of "5"); (TBegin, begin_text); (TIdentifier, bytes_of "BLK"); (TNumber, bytes_of "9"); (TNumber, bytes_of "1");
+               (TNumber, bytes_of "0x2"); (TEnd, end_text); (TIdentifier, bytes_of "BLK"); (TIdentifier, bytes_of "A"); (TNumber, bytes_of "7");
+               (TBegin, begin_text); (TIdentifier, bytes_of "BLK"); (TNumber, bytes_of "8"); (TEnd, end_text); (TIdentifier, bytes_of "BLK")],
+              [(TNumber, bytes_of "5"); (TBegin, begin_text); (TIdentifier, bytes_of "BLK"); (TNumber, bytes_of "9"); (TNumber, bytes_of "1");
+               (TNumber, bytes_of "0x2"); (TEnd, end_text); (TIdentifier, bytes_of "BLK"); (TIdentifier, bytes_of "A"); (TNumber, bytes_of "7");
+               (TBegin, begin_text); (TIdentifier, bytes_of "BLK"); (TNumber, bytes_of "8"); (TEnd, end_text); (TIdentifier, bytes_of "BLK")]).
+Proof. vm_compute. reflexivity. Qed.
